@@ -39,6 +39,8 @@ def _texts(tier):
     out = [(s["name"], s["text"]) for s in gendrive.SKELETONS]
     out.append(("sz-two-blocks", "N{[<][<]CC[>][>]}|schulz_zimm(60,50)|{[<][<]CO[>][>]}|schulz_zimm(70, 50)|F"))
     out.append(("sz-endgroups", "{[][<]CC[>], [<|2|]CO[>]; [<]OC, [>]N[]}|schulz_zimm(60,50)|"))
+    out.append(("two-id-families-adjacent", "C{[>1] [<1]CC([>1])c1ccccc1, [<2]CC([>2])C(=O)OC; [<2]Br [<1]}|schulz_zimm(1000, 900)|{[>1] [<1]CC([>1])O, [<2]CC([>2])N; [<1]F, [<2]Cl []}|schulz_zimm(500, 400)|"))
+    out.append(("two-id-families-connector", "C{[>1] [<1]CC([>1])c1ccccc1, [<2]CC([>2])C(=O)OC; [<2]Br [<1]}|schulz_zimm(1000, 900)|[>1]CS[<1]{[>1] [<1]CC([>1])O, [<2]CC([>2])N; [<1]F, [<2]Cl []}|schulz_zimm(500, 400)|"))
     ts = corpus.test_strings("test_molecule.py")
     for i, t in enumerate(ts if tier == "thorough" else ts[:3]):
         out.append((f"test_molecule[{i}]", t.split(".|")[0]))
@@ -239,6 +241,11 @@ def run_case(case, g, tier, res):
         rn, re_, ls = reference_graph(g, mol)
         n, e = code_graph(sag.graph)
         compare(P, rn, re_, n, e, ls)
+        # building the graph again on the same object gives the same graph
+        sag.generate()
+        n2, e2 = code_graph(sag.graph)
+        c.prove(n2 == n and len(e2) == len(e) and sorted((u, v, k, bt) for u, v, k, bt, w in e2) == sorted((u, v, k, bt) for u, v, k, bt, w in e),
+                "second generate() gives the same graph", detail("a second generate() on the same object gives another graph"), fatal=False)
         return len(n), len(e)
 
     explore_case(res, h, tier, on_path=on_path)
@@ -255,4 +262,11 @@ def replay(rp, gb):
     rn, re_, ls = reference_graph(gb, mol)
     n, e = code_graph(sag.graph)
     compare(P, rn, re_, n, e, ls)
+    try:
+        sag.generate()
+        n2, e2 = code_graph(sag.graph)
+        if not (n2 == n and sorted((u, v, k, bt) for u, v, k, bt, w in e2) == sorted((u, v, k, bt) for u, v, k, bt, w in e)):
+            P.failed.append("a second generate() on the same object gives another graph")
+    except Exception as ex:
+        P.failed.append("a second generate() on the same object gives another graph")
     return rp["label"] in P.failed, f"failed: {sorted(set(P.failed))}"
